@@ -265,7 +265,7 @@ echs_evstrm_mux(echs_evstrm_t s, ...)
 			}
 			strm = x;
 		}
-		strm[nstrm++] = clone_echs_evstrm(s);
+		strm[nstrm++] = s;
 	}
 	va_end(ap);
 	return make_evmux(strm, nstrm);
@@ -303,7 +303,7 @@ echs_evstrm_mux_clon(echs_evstrm_t s, ...)
 			}
 			strm = x;
 		}
-		strm[nstrm++] = s;
+		strm[nstrm++] = clone_echs_evstrm(s);
 	}
 	va_end(ap);
 	return make_evmux(strm, nstrm);
